@@ -305,6 +305,9 @@ func (s *LSpec) renderConv(b *strings.Builder, c *LConv) {
 	if c.Raw != "" {
 		lines = append(lines, "// goverter:output:raw "+c.Raw)
 	}
+	if c.Defect == "render" {
+		lines = append(lines, "// goverter:output:raw func brokenRaw"+n+"( {")
+	}
 	if c.Defect == "directive" {
 		lines = append(lines, "// goverter:thisSettingDoesNotExist yes")
 	}
@@ -479,9 +482,18 @@ func DrawLayout(rng *rand.Rand, nConv int, opts LayoutOpts) *LSpec {
 			c.Raw = "const Raw" + c.Name + " = \"" + low(c.Name) + "\""
 		}
 		if c.Kind == "variables" && c.OutFile != "" && !strings.HasPrefix(c.OutFile, "./same_") {
-			// a variables block assigns package-level variables of its own package; other
-			// locations need output:package too — keep to the documented default layout
-			c.OutFile = ""
+			// a variables block written elsewhere needs an output:package; without one keep
+			// the documented default layout
+			if rng.IntN(2) == 0 && !strings.HasPrefix(c.OutFile, RootPlaceholder) {
+				p := s.Predict(&c)
+				d := path.Dir(p.Path)
+				if d == "." {
+					d = ""
+				}
+				c.OutPkg = []string{":vars" + strings.ToLower(c.Name), importPath(d) + ":vars" + strings.ToLower(c.Name), importPath(d)}[rng.IntN(3)]
+			} else {
+				c.OutFile = ""
+			}
 		}
 		if c.Kind == "interface" {
 			p := s.Predict(&c)
